@@ -25,9 +25,23 @@ type rawVal struct {
 // modelValues runs the satisfiable query again with model production and
 // returns the raw values of all input probes by path.
 func modelValues(dir string, vc *FuncVC, o *Obligation, solverName string, timeoutS int) (map[string]rawVal, string) {
+	return modelValuesX(dir, vc, o, solverName, timeoutS, "", nil)
+}
+
+func modelValuesExtra(dir string, vc *FuncVC, o *Obligation, extraAsserts string, extra func() []probe) (map[string]rawVal, string) {
+	return modelValuesX(dir, vc, o, "z3-5.1.0", 30, extraAsserts, extra)
+}
+
+func modelValuesX(dir string, vc *FuncVC, o *Obligation, solverName string, timeoutS int, extraAsserts string, extra func() []probe) (map[string]rawVal, string) {
 	sc := vc.Engine.sc
 	before := len(sc.lines)
+	if o.Upto > before {
+		before = o.Upto
+	}
 	probes := vc.inputProbes()
+	if extra != nil {
+		probes = append(probes, extra()...)
+	}
 	var b strings.Builder
 	b.WriteString("(set-option :produce-models true)\n(set-logic ALL)\n")
 	b.WriteString(sc.text(o.Upto))
@@ -36,12 +50,9 @@ func modelValues(dir string, vc *FuncVC, o *Obligation, solverName string, timeo
 	} else {
 		b.WriteString("(assert (not " + o.Goal + "))\n")
 	}
-	for _, l := range sc.lines[o.Upto:before] {
-		if strings.HasPrefix(l, "(declare-const H0_") || strings.HasPrefix(l, "(declare-fun parse") {
-			b.WriteString(l + "\n")
-		}
-	}
-	for _, l := range sc.lines[before:] {
+	_ = before
+	for _, l := range sc.lines[o.Upto:] {
+		// later definitions and declarations (never assumptions): the probes may use them
 		if !strings.HasPrefix(l, "(assert") {
 			b.WriteString(l + "\n")
 		}
@@ -52,7 +63,18 @@ func modelValues(dir string, vc *FuncVC, o *Obligation, solverName string, timeo
 		if strings.HasSuffix(p.Path, "#len") && p.Kind == "int" && !strings.Contains(p.Term, "gs_len") {
 			small += "(assert (bvsle " + p.Term + " (_ bv3 64)))\n"
 		}
+		if p.Kind == "mapref" {
+			small += "(assert (= " + p.Term + " (_ bv0 32)))\n"
+		}
+		if p.Kind == "str" && len(vc.Engine.litOrder) > 1 && len(vc.Engine.parseCalls) == 0 {
+			var alts []string
+			for _, lit := range vc.Engine.litOrder {
+				alts = append(alts, "(= "+p.Term+" "+vc.Engine.lits[lit]+")")
+			}
+			small += "(assert (or " + strings.Join(alts, " ") + "))\n"
+		}
 	}
+	b.WriteString(extraAsserts)
 	b.WriteString("SMALL-INPUTS\n")
 	b.WriteString("(check-sat)\n")
 	// string-valued probes are decoded by comparing their abstract model value with
@@ -196,6 +218,9 @@ func goLiteral(m map[string]rawVal, path string, t types.Type, pkg *types.Packag
 				}
 			}
 			n := int64(m[path+"#len"].U)
+			if n == 0 {
+				return ts + `("")`, true
+			}
 			if n < 0 || n > 64 {
 				n = 8
 			}
@@ -246,6 +271,9 @@ func goLiteral(m map[string]rawVal, path string, t types.Type, pkg *types.Packag
 		}
 		return ts + "{" + strings.Join(parts, ", ") + "}", allOK
 	case *types.Map:
+		if rv, ok := m[path]; ok && rv.OK && rv.U == 0 {
+			return "nil", true
+		}
 		*notes = append(*notes, path+": map contents not reconstructed (empty map used)")
 		return ts + "{}", false
 	case *types.Interface:
